@@ -36,7 +36,13 @@ META = {
             "or NULL + non-empty error' is a violation (thorough tier additionally with -fsanitize=address,undefined); crashing generated documents are "
             "minimised automatically and the innermost remaining element is part of the signature. This stream found two defects that are now repaired in "
             "/repo and kept in a fixed corpus with revert mutants: <asset><model> without file= aborted (bad_optional_access), an unknown <layer role> "
-            "keyword exited the process through mju_error. A URDF model and its byte mutations are part of the crash stream (observation only). NOT COVERED: tinyxml2 itself "
+            "keyword exited the process through mju_error. A URDF model and its byte mutations are part of the crash stream (observation only). "
+            "Exact-fit stratum: value lists of 499..502, 600, 1000, 5000 entries on every numeric attribute of the read table and on the hand-read "
+            "elements (custom numeric/text, keyframes, user data, frame/replicate, mesh, composite) - found the stack-buffer overrun of <numeric> "
+            "(C37-F4, repaired, fixed corpus + revert mutant). Include graphs: mj_loadXML through a VFS with several files - chains, trees, diamonds, "
+            "self-includes, cycles with an acyclic prefix, cycles through the top file, missing/empty/malformed files, includes with children; oracle "
+            "computed from the generated graph alone: cyclic or defective graph => NULL + message, acyclic graph of valid files each included once => "
+            "model, always a return. Include expansion (IncludeXML) is NOT modelled in Coq: oracle and observation only. NOT COVERED: tinyxml2 itself "
             "(the XML tokenizer under test is the harness shim harness/stubs/tinyxml2_shim.cc), URDF, files/includes/assets on disk, src/xml/mjz, "
             "semantic (non-schema) checks of the reader, numeric value conversion of the lexers (strtod/istream).",
     "note": "Trusted: Coq kernel; hand-written models Model/Schema.v, Model/Lex.v (tied by correspondence on the cases of this run); translator "
@@ -782,6 +788,110 @@ def deep_docs():
     return out
 
 
+
+# ------------------------------------------------------------------ include graphs (mj_loadXML through a VFS)
+def include_graph(rng, shape):
+    """returns (top document text, {file name: text}, expectation) ; expectation in model / null / any.
+    Files of kind S are included below <mujoco> (they carry sections), files of kind B below a body."""
+    files = {}
+    uid = [0]
+
+    def sfile(name, incs_s=(), incs_b=()):
+        uid[0] += 1
+        files[name] = ('<mujoco>\n <option timestep="0.0%d"/>\n%s <worldbody>\n  <geom name="g%s" size="0.1"/>\n%s </worldbody>\n</mujoco>\n' %
+                       (1 + uid[0] % 8, "".join(' <include file="%s"/>\n' % f for f in incs_s), name.replace(".", "_"),
+                        "".join('  <include file="%s"/>\n' % f for f in incs_b)))
+
+    def bfile(name, incs_b=(), nested=()):
+        files[name] = ('<mujocoinclude>\n <body name="b%s" pos="0 0 1">\n  <geom size="0.1"/>\n%s </body>\n%s</mujocoinclude>\n' %
+                       (name.replace(".", "_"), "".join('  <include file="%s"/>\n' % f for f in nested), "".join(' <include file="%s"/>\n' % f for f in incs_b)))
+
+    def top(incs_s=(), incs_b=()):
+        return ('<mujoco model="top">\n%s <worldbody>\n  <geom name="floor" type="plane" size="1 1 .1"/>\n%s </worldbody>\n</mujoco>\n' %
+                ("".join(' <include file="%s"/>\n' % f for f in incs_s), "".join('  <include file="%s"/>\n' % f for f in incs_b)))
+    expect = "model"
+    if shape == "plain":
+        sfile("s1.xml"); bfile("b1.xml")
+        t = top(["s1.xml"], ["b1.xml"])
+    elif shape == "chain":
+        n = rng.choice([2, 3, 5, 10, 25, 40])
+        kind = rng.choice("SB")
+        for i in range(n):
+            nxt = ["%s%d.xml" % (kind.lower(), i + 1)] if i + 1 < n else []
+            if kind == "S":
+                sfile("s%d.xml" % i, incs_s=nxt)
+            elif rng.random() < 0.5:
+                bfile("b%d.xml" % i, nested=nxt)
+            else:
+                bfile("b%d.xml" % i, incs_b=nxt)
+        t = top(["s0.xml"], []) if kind == "S" else top([], ["b0.xml"])
+    elif shape == "tree":
+        names = ["b%d.xml" % i for i in range(rng.choice([3, 5, 8]))]
+        kids = {n: [] for n in names}
+        for i in range(1, len(names)):
+            kids[names[rng.randrange(i)]].append(names[i])
+        for n in names:
+            half = len(kids[n]) // 2
+            bfile(n, incs_b=kids[n][:half], nested=kids[n][half:])
+        sfile("s0.xml", incs_b=[])
+        t = top(["s0.xml"], [names[0]])
+    elif shape == "diamond":
+        bfile("leaf.xml")
+        bfile("l.xml", nested=["leaf.xml"]); bfile("r.xml", incs_b=["leaf.xml"])
+        t = top([], ["l.xml", "r.xml"])
+        expect = "any"       # a file included twice: rejected today ("already included"); either outcome satisfies the property
+    elif shape == "twice":
+        sfile("s1.xml")
+        t = top(["s1.xml", "s1.xml"], [])
+        expect = "any"
+    elif shape == "self":
+        kind = rng.choice("SB")
+        if kind == "S":
+            sfile("loop.xml", incs_s=["loop.xml"]); t = top(["loop.xml"], [])
+        else:
+            bfile("loop.xml", nested=["loop.xml"]) if rng.random() < 0.5 else bfile("loop.xml", incs_b=["loop.xml"])
+            t = top([], ["loop.xml"])
+        expect = "null"
+    elif shape == "cycle":
+        n = rng.choice([2, 2, 3, 4, 6])
+        pre = rng.choice([0, 0, 1, 3])       # acyclic prefix before the cycle is entered
+        names = ["c%d.xml" % i for i in range(pre + n)]
+        for i, nm in enumerate(names):
+            nxt = names[i + 1] if i + 1 < len(names) else names[pre]
+            if rng.random() < 0.5:
+                bfile(nm, nested=[nxt])
+            else:
+                bfile(nm, incs_b=[nxt])
+        t = top([], [names[0]])
+        expect = "null"
+    elif shape == "cycle_top":
+        if rng.random() < 0.5:
+            bfile("a.xml", incs_b=["doc.xml"])
+            t = top([], ["a.xml"])
+        else:
+            t = top(["doc.xml"], [])
+        expect = "null"
+    elif shape == "missing":
+        bfile("a.xml", incs_b=["nothere.xml"])
+        t = top([], ["a.xml"])
+        expect = "null"
+    elif shape == "empty":
+        files["e.xml"] = rng.choice(["", " \n", "<mujocoinclude/>", "<!-- only a comment -->"])
+        bfile("a.xml", nested=["e.xml"])
+        t = top([], ["a.xml"])
+        expect = "null"
+    elif shape == "badxml":
+        files["bad.xml"] = rng.choice(["<mujocoinclude><body></mujocoinclude>", "<a", "<a><b/></a><", "\x00\x01", "<a b=></a>"])
+        t = top([], ["bad.xml"])
+        expect = "null"
+    elif shape == "children":
+        bfile("a.xml")
+        t = top([], []).replace("<worldbody>", '<worldbody><include file="a.xml"><geom size="1"/></include>')
+        expect = "null"
+    else:
+        raise ValueError(shape)
+    return t, files, expect
+
 # ------------------------------------------------------------------ the check
 def run(ctx):
     """per-process scratch directory, so that several ./check C37 runs (self-tests) can overlap"""
@@ -848,19 +958,25 @@ def _run(ctx):
     API = {"P": "mj_parseXMLString", "C": "mj_parseXMLString+mj_compile", "L": "mj_loadXML"}
     crash_seen = set()
 
-    def report_crash(mode, docbytes, el, ln, mutation=""):
+    def report_crash(mode, docbytes, el, ln, mutation="", extra_sig=None):
         """a forked run ended by signal / exit instead of returning: minimise (when the element tree is known) and report"""
         what = crash_what(ln)
         small = None
-        key0 = (mode, what, innermost(el) if el is not None else mutation)
-        if el is not None and (mode, what) not in crash_seen:
+        if el is not None:
+            pre = ("pre", mode, what, innermost(el))
+            if len(crash_seen) >= 12 or pre in crash_seen:
+                return          # same innermost element already minimised / enough minimised reports in one run
+            crash_seen.add(pre)
             small = minimize(ctx, exe, el, mode, what)
-        crash_seen.add((mode, what))
+            k = (mode, what, innermost(small))
+            if k in crash_seen:
+                return
+            crash_seen.add(k)
         sig = {"site": API[mode], "class": "crash", "what": what}
+        if extra_sig:
+            sig.update(extra_sig)
         if small is not None:
             sig["element"] = innermost(small)
-        elif el is not None:
-            return   # same crash class already reported with a minimised document
         case = {"api": API[mode], "doc_b64": base64.b64encode(docbytes).decode()[:8000], "bytes": len(docbytes), "mutation": mutation}
         if small is not None:
             case["minimised_doc"] = serialize(small)
@@ -1094,7 +1210,8 @@ def _run(ctx):
             b = out3[2 * j + 1].split("\t")
             for ln, doc in ((g, tc["good"]), (b, tc["bad"])):
                 if ln[0] != "P RET" and not (ln[0].endswith("SIGNAL") and ln[1] == "14"):
-                    report_crash("P", doc.encode(), None, "\t".join(ln), "typed:%s:%s:%s" % (tc["elem"], tc["attr"], tc["what"]))
+                    report_crash("P", doc.encode(), None, "\t".join(ln), "typed:%s:%s:%s" % (tc["elem"], tc["attr"], tc["what"]),
+                                 extra_sig={"element": tc["elem"], "attribute": tc["attr"]})
             if g[0] != "P RET" or b[0] != "P RET":
                 continue
             if g[1] != "SPEC":
@@ -1102,6 +1219,11 @@ def _run(ctx):
                 continue
             n_typed += 1
             typed_kinds[tc["what"]] = typed_kinds.get(tc["what"], 0) + 1
+            if tc["what"] == "longlist":
+                if b[1] == "NULL" and not (len(b) > 2 and unesc(b[2]).strip()):
+                    alarm("impl_violation", {"doc": tc["bad"][:300], "api": "mj_parseXMLString"}, expected="non-empty error message with NULL", observed="\t".join(b)[:200],
+                          signature={"site": "mj_parseXMLString", "class": "null-without-message"}, theorem="(oracle) error message")
+                continue
             if b[1] != "NULL" or not (len(b) > 2 and unesc(b[2]).strip()):
                 alarm("impl_violation", {"doc": tc["bad"][:2000], "element": tc["elem"], "attribute": tc["attr"], "injected": tc["what"], "api": "mj_parseXMLString"},
                       expected="NULL + non-empty error (%s)" % tc["what"], observed="\t".join(b)[:300],
@@ -1120,6 +1242,10 @@ def _run(ctx):
         El("mujoco", [], [El("asset", [], [El("model")])]),
         El("mujoco", [], [El("asset", [], [El("material", [], [El("layer", [("role", "1"), ("texture", "1")])])])]),   # C37-F3: exit via mju_error
         El("mujoco", [], [El("asset", [], [El("material", [("name", "m")], [El("layer", [("role", "RGB"), ("texture", "t")])])])]),
+        # C37-F4: <numeric> size used as the copy bound into data[500] before it was range-checked (stack buffer overrun)
+        El("mujoco", [], [El("custom", [], [El("numeric", [("name", "n"), ("size", "1000"), ("data", " ".join(["1"] * 600))])])]),
+        El("mujoco", [], [El("custom", [], [El("numeric", [("name", "n"), ("data", " ".join(["1"] * 501))])])]),
+        El("mujoco", [], [El("custom", [], [El("numeric", [("name", "n"), ("size", "501"), ("data", " ".join(["1"] * 501))])])]),
     ]
     crash_el = {}
     for el in FIXED:
@@ -1128,6 +1254,29 @@ def _run(ctx):
             crash_docs.append(("fixed", serialize(el).encode()))
     for s in SEEDS:
         crash_docs += byte_mutations(s, rng, 60 if quick else 350)
+    # exact-fit / overlong value lists on elements whose attributes are read by hand-written code into
+    # fixed-size buffers (custom numeric/text/tuple, keyframes, user data, replicate/frame, plugin config)
+    def vals(n, v="1"):
+        return " ".join([v] * n)
+    NS = [1, 3, 499, 500, 501, 502, 600, 1000, 5000] if not quick else [3, 500, 501, 502, 1000, rng.choice([499, 600, 5000])]
+    exact = []
+    for n in NS:
+        exact.append(El("mujoco", [], [El("custom", [], [El("numeric", [("name", "n"), ("data", vals(n))])])]))
+        exact.append(El("mujoco", [], [El("custom", [], [El("numeric", [("name", "n"), ("size", str(n)), ("data", vals(n))])])]))
+        exact.append(El("mujoco", [], [El("custom", [], [El("numeric", [("name", "n"), ("size", str(2 * n)), ("data", vals(n))])])]))
+        exact.append(El("mujoco", [], [El("custom", [], [El("numeric", [("name", "n"), ("size", str(n)), ("data", vals(3))])])]))
+        exact.append(El("mujoco", [], [El("custom", [], [El("text", [("name", "t"), ("data", "x" * n)])])]))
+        exact.append(El("mujoco", [], [El("keyframe", [], [El("key", [("qpos", vals(n)), ("ctrl", vals(n)), ("act", vals(n)), ("mpos", vals(n)), ("mquat", vals(n))])])]))
+        exact.append(El("mujoco", [], [El("size", [("nuser_body", str(n)), ("nuser_geom", str(n))]),
+                                       El("worldbody", [], [El("body", [("user", vals(n))], [El("geom", [("size", "1"), ("user", vals(n))])])])]))
+        exact.append(El("mujoco", [], [El("worldbody", [], [El("replicate", [("count", "2"), ("offset", vals(n)), ("euler", vals(n))], [El("geom", [("size", "1")])])])]))
+        exact.append(El("mujoco", [], [El("worldbody", [], [El("frame", [("pos", vals(n)), ("quat", vals(n))], [El("geom", [("size", "1"), ("fromto", vals(n))])])])]))
+        exact.append(El("mujoco", [], [El("option", [("actuatorgroupdisable", vals(n, "3"))]), El("worldbody")]))
+        exact.append(El("mujoco", [], [El("asset", [], [El("mesh", [("name", "m"), ("vertex", vals(n)), ("face", vals(n, "0"))])])]))
+        exact.append(El("mujoco", [], [El("worldbody", [], [El("body", [], [El("geom", [("size", "1")]), El("composite", [("type", "cable"), ("count", vals(n)), ("vertex", vals(n))])])])]))
+    for el in exact:
+        crash_el[len(crash_docs)] = el
+        crash_docs.append(("exactfit", serialize(el).encode()))
     # URDF: observation only (the schema half does not apply to <robot> documents)
     crash_docs.append(("urdf", URDF_SEED.encode()))
     crash_docs += byte_mutations(URDF_SEED, rng, 40 if quick else 400)
@@ -1174,13 +1323,59 @@ def _run(ctx):
         if seeds_ok < len(SEEDS):
             ctx.broken.append(("correspondence", "a curated seed model no longer loads: the crash stream would be vacuous", str([l[:200] for l in out4[:len(SEEDS)]])))
 
+
+    # ================================================================== F. include graphs through a VFS (mj_loadXML)
+    shapes = ["plain", "chain", "tree", "diamond", "twice", "self", "cycle", "cycle_top", "missing", "empty", "badxml", "children"]
+    graphs = []
+    for sh in shapes:
+        for _ in range((3 if sh in ("self", "cycle", "chain", "tree") else 2) if quick else (30 if sh in ("self", "cycle", "chain", "tree") else 8)):
+            graphs.append((sh,) + include_graph(rng, sh))
+    cmds = []
+    for (sh, t, files, expect) in graphs:
+        cmds.append("FILES CLEAR")
+        for nm, txt in files.items():
+            cmds.append(("FILE %s" % nm, txt))
+        cmds.append(("DOC L", t))
+    out5, err = run_driver(ctx, exe, cmds, args=("--timeout=20",), timeout=1200)
+    n_graphs = 0
+    graph_outcomes = {}
+    if out5 is None:
+        ctx.broken.append(("correspondence", "driver c37_xml failed on the include-graph stream", err))
+    else:
+        p = 0
+        for (sh, t, files, expect) in graphs:
+            p += 1 + len(files)
+            ln = out5[p]
+            p += 1
+            n_graphs += 1
+            f = ln.split("\t")
+            case = {"api": "mj_loadXML (VFS)", "shape": sh, "doc.xml": t, "files": {k: v[:600] for k, v in files.items()}}
+            if not f[0].endswith("RET"):
+                graph_outcomes[sh + ":crash"] = graph_outcomes.get(sh + ":crash", 0) + 1
+                alarm("impl_violation", case, expected="a model, or NULL with a non-empty error message" + (" (the include graph has a cycle: NULL + message)" if expect == "null" and sh in ("self", "cycle", "cycle_top") else ""),
+                      observed=ln[:500], signature={"site": "mj_loadXML", "class": "crash", "what": crash_what(ln), "element": "include", "shape": sh},
+                      theorem="(observation) no crash / abort / exit")
+                continue
+            got = "model" if "MODEL" in f else "null"
+            graph_outcomes[sh + ":" + got] = graph_outcomes.get(sh + ":" + got, 0) + 1
+            msg = unesc(f[-1]) if len(f) > 2 else ""
+            if got == "null" and not msg.strip():
+                alarm("impl_violation", case, expected="non-empty error message with NULL", observed=ln[:300],
+                      signature={"site": "mj_loadXML", "class": "null-without-message", "shape": sh}, theorem="(oracle) error message")
+            if expect == "null" and got == "model":
+                alarm("impl_violation", case, expected="NULL + error: the include graph is cyclic / refers to a missing, empty or malformed file", observed=ln[:300],
+                      signature={"site": "mj_loadXML", "class": "accepts-bad-include-graph", "shape": sh}, theorem="(oracle) include graphs")
+            if expect == "model" and got == "null":
+                alarm("impl_violation", case, expected="a model: acyclic include graph of valid files, each included once", observed=ln[:400],
+                      signature={"site": "mj_loadXML", "class": "rejects-valid-include-graph", "shape": sh}, theorem="(oracle) include graphs")
+
     # thorough: the same stream under ASan/UBSan
     san = None
     if not quick and out4 is not None:
         san = sanitizer_run(ctx, crash_docs, alarm)
 
     # ---- known finding replay (refuted theorem): two unique <inertial> below <frame>
-    ctx.cov["evaluations"] = len(docs) + n_p + n_rand_docs + 2 * len(typed) + n_lex + n_crash_runs
+    ctx.cov["evaluations"] = len(docs) + n_p + n_rand_docs + 2 * len(typed) + n_lex + n_crash_runs + n_graphs
     ctx.cov["distinct_nontrivial"] = len(set(texts)) + n_rand_docs
     ctx.cov["rule"] = ("documents generated by walking the regenerated table (valid stream; one injected violation: unknown attribute/element, repeated unique child, "
                        "dropped required child, broken e/t/r/o constraint, misplaced element; include wrappers), the same on random tables with '!'/'?'/'*'/'R' rows, "
@@ -1195,6 +1390,7 @@ def _run(ctx):
         "random_tables": ntab, "random_table_docs": n_rand_docs, "error_classes_random": rand_classes, "model_disagreements_random": len(fails2),
         "reader_docs": n_p, "typed_pairs": n_typed, "typed_pairs_skipped_baseline_not_accepted": n_typed_skipped, "typed_kinds": typed_kinds,
         "lexer_cases": n_lex, "crash_runs": n_crash_runs, "crash_timeouts_not_counted": n_timeouts, "crash_models_returned": n_models,
+        "include_graphs": n_graphs, "include_graph_outcomes": graph_outcomes,
         "sanitizer": san, "violations_total": nviol[0]})
     ctx.cov["explanation"] = ("schema matcher <-> Conforms proved for all tables and documents; model tied to the real mjXSchema on %d+%d documents; "
                               "independent conformance oracle on every document; %d typed-attribute pairs; %d fork-isolated crash runs" %
@@ -1271,6 +1467,10 @@ def typed_cases(tree, readtab, maps, rng, quick):
                     muts.append(("arity", good, " ".join(["1"] * (n - 1))))
                 if r["kind"] == "kInt":
                     muts.append(("type", good, " ".join(["1"] * (n - 1) + ["1.5x"])))
+            if r["kind"] in ("kInt", "kDouble", "kNum", "kFloat", "kDoubleVec", "kFloatVec", "kIntVec"):
+                # exact-fit / overlong lists: lengths around the fixed-size buffers of the reader (no expectation but "returns")
+                for big in ((rng.choice([501, 5000]),) if not quick else (rng.choice([500, 501, 502, 1000, 5000]),)):
+                    muts.append(("longlist", "1", " ".join(["1"] * big)))
             if quick and len(muts) > 2:
                 muts = rng.sample(muts, 2)
             for what, gv, bv in muts:
